@@ -8,3 +8,12 @@ Definition api_c12_nndist (maxdist : nat) (x : str) (ref : list str) : option na
   nndist_ham gen_aminoacids maxdist x ref.
 Definition api_c12_isdist2 (x : str) (ref : list str) : bool := isdist2_ham gen_aminoacids x ref.
 Definition api_c12_isdist3 (x : str) (ref : list str) : bool := isdist3_ham gen_aminoacids x ref.
+
+(* C12 (source tie): the functions regenerated from the source text of pyrepseq/distance.py (gen/Gen_c12.v), so that the
+   harness can run them too; proofs/GenNbrsP.v proves them equal to the models above. *)
+From PV Require Import gen.Gen_c12.
+Definition api_c12g_lev_nbrs (al x : str) : list str := gen_levenshtein_neighbors al x.
+Definition api_c12g_ham_nbrs (al : str) (pos : list nat) (x : str) : list str := gen_hamming_neighbors al pos x.
+Definition api_c12g_ham_nbrs_default (al x : str) : list str := gen_hamming_neighbors_default al x.
+Definition api_c12g_isdist2 (x : str) (ref : list str) : bool := gen_isdist2 gen_aminoacids x ref.
+Definition api_c12g_isdist3 (x : str) (ref : list str) : bool := gen_isdist3 gen_aminoacids x ref.
